@@ -43,7 +43,7 @@ func init() {
 			}
 			p := seqProfile{minSteps: 4, maxSteps: 30, wTxn: 20, wCreateCol: 2, wDropCol: 1,
 				wInsert: 8, wAt: 8, wRange: 3, wDelete: 3, wDeleteAll: 1,
-				pAbort: 0.05, pMerge: 0.35, maxCols: 12, multiBlock: 0.5}
+				pAbort: 0.12, pMerge: 0.35, maxCols: 12, multiBlock: 0.5}
 			cs := genSeq("C01", seed, run, p, knownAvoid("C01", seed, run))
 			if pf := cs.Cfg.Prefill; run%40 == 7 && pf != nil && len(pf.Survivors) > 0 {
 				// rarely reached size: an enum column whose string table holds more than 65536 entries
@@ -92,7 +92,7 @@ func init() {
 		Gen: func(seed uint64, run int, tier string) *Case {
 			p := seqProfile{minSteps: 5, maxSteps: 28, wTxn: 20, wCreateIndex: 4, wDropIndex: 2, wRestart: 1, wCreateCol: 1,
 				wInsert: 8, wAt: 10, wRange: 3, wDelete: 3, wDeleteAll: 1,
-				pAbort: 0.05, pMerge: 0.4, maxCols: 6, multiBlock: 0.5, indexes: true, filters: true}
+				pAbort: 0.12, pMerge: 0.4, maxCols: 6, multiBlock: 0.5, indexes: true, filters: true}
 			if run%3 == 2 {
 				// part B: indexes are created on a populated collection while writers commit (yield
 				// point before each block of the back-fill); judged at quiescence
